@@ -3,6 +3,7 @@
 # Confirms a seeded change in the scratch worktree /tmp/mut (suite passes with it; demo fails with it and
 # passes without it) and stores it under /verif/seeded/<seed-name>/.
 d=$1; name=$2; prop=$3; checks=$4; change=$5; needs=$6
+[ -d /tmp/mut ] || git -C /repo worktree add -q --detach /tmp/mut HEAD || exit 2  # scratch worktree; remove with: git -C /repo worktree remove --force /tmp/mut
 cd /tmp/mut || exit 2
 git checkout -q -- . ; git clean -fdq
 git apply $d/patch.diff || { echo "$name: patch does not apply"; exit 1; }
